@@ -93,6 +93,31 @@ pub fn run(only: &[String]) -> Vec<String> {
             if !ok { fail("SlotMap::bijection_from_fresh_to", "C19:bijection_from_fresh_to", format!("set=keys of {} got {}", show(m), shows(&t))); }
         }
     }
+    // maps beyond SmallVec's inline capacity of ten: fixed-seed random operation sequences over 16 keys
+    {
+        let mut seed: u64 = 0x51a7_7ed5;
+        let mut rnd = |n: u64| -> u32 { seed = seed.wrapping_mul(6364136223846793005).wrapping_add(1442695040888963407); ((seed >> 33) % n) as u32 };
+        for round in 0..40 {
+            let mut s = SlotMap::new(); let mut m = Model::new();
+            for step in 0..60 {
+                let (k, v) = (rnd(16), rnd(16));
+                let op = rnd(4);
+                verif_case(format!("long sequence round {} step {}: m={} op {} k=${} v=${}", round, step, show(&m), op, k, v));
+                if op < 3 { if want("SlotMap::insert") || want("SlotMap::get") || want("SlotMap::search") { s.insert(sl(k), sl(v)); m.insert(k, v); } }
+                else if want("SlotMap::remove") || want("SlotMap::insert") { s.remove(sl(k)); m.remove(&k); }
+                if pairs(&s) != mpairs(&m) { fail("SlotMap::insert", "C19:insert.view", format!("after a long insert/remove sequence the map is {} but the reference is {}", shows(&s), show(&m))); break; }
+                if want("SlotMap::get") && s.get(sl(v)) != m.get(&v).map(|x| sl(*x)) { fail("SlotMap::get", "C19:get.view", format!("m={} get(${})", show(&m), v)); }
+                if want("SlotMap::inverse") && injective(&m) && m.len() > 10 {
+                    let e: Model = m.iter().map(|(a, b)| (*b, *a)).collect();
+                    if pairs(&s.inverse()) != mpairs(&e) { fail("SlotMap::inverse", "C19:inverse.inv", format!("m={} inverse", show(&m))); }
+                }
+                if want("SlotMap::compose_partial") && m.len() > 10 {
+                    let e: Model = m.iter().filter_map(|(x, y)| m.get(y).map(|z| (*x, *z))).collect();
+                    if pairs(&s.compose_partial(&s)) != mpairs(&e) { fail("SlotMap::compose_partial", "C19:compose_partial.view", format!("m={} composed with itself", show(&m))); }
+                }
+            }
+        }
+    }
     // binary operations: all pairs (every 7th model on each side in the thorough tier, whose model set is much larger)
     let step = if deep() { 7 } else { 1 };
     for a in models.iter().step_by(step) { for b in models.iter().step_by(step) {
